@@ -65,8 +65,12 @@ def ext_next(ex, st, pos, kw, node):
     Cycle.__init__ and never reassigned; ghost gen_pos(g) counts the items it has yielded (I-GEN, trusted)"""
     g = pos[0]
     arg = node.args[0]
+    if g.k == "ref" and g.h is not None and g.h.kind == "gen" and g.h.name in getattr(ex.S, "gen_kinds", {}):
+        return calls.generator_next(ex, st, g, node)
     if g.k != "ref" or g.h is None or g.h.kind != "gen" or not isinstance(arg, ast.Attribute):
         raise Unsupported("next() on something that is not a declared generator attribute", node)
+    if g.h.name in getattr(ex.S, "gen_kinds", {}):
+        return calls.generator_next(ex, st, g, node)
     if g.h.name != "Cycle":
         raise Unsupported("next() on generator kind " + str(g.h.name), node)
     owner = ex.ev1(arg.value, st)
